@@ -67,6 +67,37 @@ func main() {
 			runDidHistory(r, rng, accs[1:], *ops)
 			sum = Summary{Steps: r.Steps, Ops: r.Ops, Outs: r.Outs, Halted: c.Halted}
 			c.Close()
+		case "node":
+			accs, bal := stdAccounts(8)
+			c, err := NewChain(GenesisSpec{Accounts: accs, Balances: bal, NodeParams: randomNodeParams(rng), ValidatorIdx: []int{0}, ValSelfBond: 1000000}, time.Unix(1700000000, 0))
+			if err != nil {
+				panic(err)
+			}
+			r := NewRecorder(w, c)
+			runNodeHistory(r, rng, accs[1:], *ops)
+			sum = Summary{Steps: r.Steps, Ops: r.Ops, Outs: r.Outs, Halted: c.Halted}
+			c.Close()
+		case "sao", "saolong":
+			accs, bal := stdAccounts(16)
+			np := DefaultNodeParams()
+			c, err := NewChain(GenesisSpec{Accounts: accs, Balances: bal, NodeParams: np, ValidatorIdx: []int{0}, ValSelfBond: 1000000}, time.Unix(1700000000, 0))
+			if err != nil {
+				panic(err)
+			}
+			r := NewRecorder(w, c)
+			runSaoHistory(r, rng, accs[1:], *ops, *profile == "saolong")
+			sum = Summary{Steps: r.Steps, Ops: r.Ops, Outs: r.Outs, Halted: c.Halted}
+			c.Close()
+		case "select":
+			accs, bal := stdAccounts(12)
+			c, err := NewChain(GenesisSpec{Accounts: accs, Balances: bal, NodeParams: DefaultNodeParams(), ValidatorIdx: []int{0}, ValSelfBond: 1000000}, time.Unix(1700000000, 0))
+			if err != nil {
+				panic(err)
+			}
+			r := NewRecorder(w, c)
+			runSelectHistory(r, rng, accs[1:], *ops, 12)
+			sum = Summary{Steps: r.Steps, Ops: r.Ops, Outs: r.Outs, Halted: c.Halted}
+			c.Close()
 		default:
 			if strings.HasPrefix(*profile, "scenario:") {
 				fn, ok := scenarios[strings.TrimPrefix(*profile, "scenario:")]
